@@ -55,6 +55,7 @@ def run(data, prop, manual_ops, overrun_ops):
     r.step('role', 'client' if client else 'server')
     next_sid = 1
     next_push = 2
+    tiny_streams = set()
     zero_seen = False
     max_changed_outstanding = False
     overflow_attempt = False
@@ -151,18 +152,26 @@ def run(data, prop, manual_ops, overrun_ops):
                 continue
             sid = next_sid
             next_sid += 2
+            # some messages declare an empty body: the only DATA they then get is an overrun attempt, which is a
+            # flow-control violation first and foremost (C04), and empty frames
+            tiny = overrun_ops and ch.chance(24)
+            extra = [(b'content-length', b'0')] if tiny else []
             if client:
                 o = s.call('send_headers', sid, REQ)
                 if not o.ok:
                     r.violate('%s:harness:send_headers-failed' % prop, o.brief())
                     break
-                o = s.feed(wire.headers(sid, s.hblock(RESP)))
+                o = s.feed(wire.headers(sid, s.hblock(RESP + extra)))
             else:
-                o = s.feed(wire.headers(sid, s.hblock(REQ)))
+                o = s.feed(wire.headers(sid, s.hblock(REQ[:1] + [(b':scheme', b'https'), (b':authority', b'example.com'),
+                                                                  (b':path', b'/')] + extra if tiny else REQ)))
             if not o.ok:
                 r.violate('%s:valid-open-rejected:%s' % (prop, o.exc_name), repr(o.exc))
                 break
             m.streams[sid] = St(sid, m.iws)
+            if tiny:
+                tiny_streams.add(sid)
+                r.labels.add('content-length-0-stream')
             r.step('open', sid, 'iws', m.iws)
             absorb(o)
         elif op == 'push':
@@ -209,6 +218,8 @@ def run(data, prop, manual_ops, overrun_ops):
             overhead = 0 if pad is None else pad + 1
             kind = ch.weighted([(6, 'fits'), (3, 'exact'), (2, 'overrun' if overrun_ops else 'exact'),
                                 (2, 'empty')])
+            if st.sid in tiny_streams and kind != 'overrun':
+                kind, pad = 'empty', None
             if kind == 'fits':
                 n = ch.int(0, max(0, min(w, limit) - overhead)) if w >= overhead else -1
             elif kind == 'exact':
@@ -228,6 +239,10 @@ def run(data, prop, manual_ops, overrun_ops):
                 fc = n
                 if fc > w:
                     continue
+            if st.sid in tiny_streams and not (fc > 0 and (fc > m.conn or fc > st.win)):
+                # not an overrun after all (clipped to the frame size): nothing but an empty frame fits the
+                # declared empty body
+                n, pad, overhead, fc = 0, None, 0, 0
             end = op == 'end'
             o = s.feed(wire.data(st.sid, b'x' * n, end_stream=end, pad=pad))
             r.step('data', st.sid, 'len', n, 'pad', pad, 'fc', fc, 'win', w, 'end', end, o.brief())
